@@ -21,7 +21,7 @@ func init() {
 			"(X-mut) effect analysis proves non-mutating forms cannot write a big.Int reachable from an operand; (O) every growing arithmetic method asserts the bit-length bound on the value it returns.",
 		NotCovered:  []string{"exactness of math/big itself", "value-level round-trip of text/JSON/binary encodings beyond 'same codec both ways'", "LegacyDec internals (SDK)"},
 		Assumptions: []string{"math/big method semantics (Quo/QuoRem truncate toward zero, remainder has the dividend's sign)", "the partition's branch predicates are the only value-dependent control flow in the helpers (anything else is reported undecided)"},
-		MinObl:      299,
+		MinObl:      302,
 		Run:         runC12,
 	})
 }
@@ -364,6 +364,10 @@ func runAssertBitLen(c *rules.Ctx, sp *ssa.Package) {
 	}
 	c.R.Extra["assert_bitlen_functions"] = n
 	// assertMaxBitLen itself: panics iff BitLen() > maxDecBitLen
+	// the sign-and-magnitude difference goes through the range-checked decimal operations on both orderings
+	c.WhenReturn("osmomath.AbsDifferenceWithSign", "sdkmath.LegacyDec.GTE(a,b)", 0, "sdkmath.LegacyDec.SubMut(a,b)", "a ≥ b: a − b through the checked subtraction")
+	c.WhenReturn("osmomath.AbsDifferenceWithSign", "not(sdkmath.LegacyDec.GTE(a,b))", 0, "sdkmath.LegacyDec.AddMut(sdkmath.LegacyDec.NegMut(a), b) | sdkmath.LegacyDec.SubMut(b,a) | sdkmath.LegacyDec.Sub(b,a)", "a < b: b − a through the checked decimal operations too (no raw big-integer arithmetic that skips the overflow check)")
+	c.NoCall("osmomath.AbsDifferenceWithSign", "big.Int.Sub", "no raw big-integer subtraction")
 	// the textual and the binary decoders accept the same range: exactly the values of at most maxBitLen bits
 	for _, fn := range []string{"osmomath.NewBigDecFromStr", "osmomath.BigDec.Unmarshal"} {
 		c.BranchOn(fn, "gt(big.Int.BitLen(_), 1024)", []string{"ge(big.Int.BitLen(_), _)", "lt(big.Int.BitLen(_), _)"}, "decoding rejects a value exactly when its bit length exceeds maxBitLen = 1024 (a representable value always parses back)")
